@@ -1105,3 +1105,38 @@ pub fn family_gc() -> Vec<RefGrammar> {
     }
     out
 }
+
+// ------------------------------------------------------------------------------------------------
+// F-pager: stored family (see vcheck/src/genfam.rs)
+// ------------------------------------------------------------------------------------------------
+
+/// One member of F-pager with what the construction did on it when the file was generated:
+/// (states created while re-processing a changed state, states removed by the garbage collection).
+#[derive(Clone, Debug)]
+pub struct PagerMember {
+    pub g: RefGrammar,
+    pub new_while_reprocessing: u64,
+    pub gc_removed: u64,
+}
+
+static PAGER_FAMILY_TEXT: &str = include_str!("../data/pager_family.jsonl");
+
+/// F-pager: every grammar of U(2,2,2,3,7), U(2,3,2,3,7), U(2,2,3,3,7), U(2,3,3,3,7), U(2,2,2,4,8),
+/// U(2,3,2,4,8), U(2,2,3,4,8) and U(2,2,2,5,9) (about 110 million grammars, enumerated exhaustively by
+/// `vcheck --gen-pager-family`) on which Pager's construction, as implemented, creates states while
+/// re-processing a state that a weak merge changed, or ends with a garbage collection that removes
+/// states - the two paths that no grammar of the plain small universes reaches. Simplest first.
+pub fn family_pager() -> Vec<PagerMember> {
+    PAGER_FAMILY_TEXT
+        .lines()
+        .filter(|l| !l.trim().is_empty())
+        .map(|l| {
+            let v: serde_json::Value = serde_json::from_str(l).expect("pager_family.jsonl: bad line");
+            PagerMember {
+                g: RefGrammar::from_json(&v["g"]).expect("pager_family.jsonl: bad grammar"),
+                new_while_reprocessing: v["new_while_reprocessing"].as_u64().unwrap_or(0),
+                gc_removed: v["gc_removed"].as_u64().unwrap_or(0),
+            }
+        })
+        .collect()
+}
